@@ -13,7 +13,7 @@ None == <<"-">>
 
 Init == /\ mode \in Modes /\ i = 1 /\ res = None
         /\ \/ mode = "ttl" /\ (text \in Ttl1 \/ text \in Ttl2 \/ text \in Ttl3 \/ text \in TtlEdge) /\ ps = TInit /\ bits = 0 /\ s = 0
-           \/ mode = "range" /\ (InRangeShort(text) \/ InRangeLong(text)) /\ ps = RInit /\ bits = 0 /\ s = 0
+           \/ mode = "range" /\ (InRangeShort(text) \/ InRangeMid(text) \/ InRangeLong(text)) /\ ps = RInit /\ bits = 0 /\ s = 0
            \/ mode = "serial" /\ text = <<>> /\ ps = TInit /\ bits \in SBits /\ s \in Space(bits)
 
 Running(m) == mode = m /\ res = None /\ i <= Len(text) /\ ps.st = "run"
